@@ -168,7 +168,16 @@ class SymExec:
 
     # ---------------------------------------------------------------- events
     def emit(self, kind, *payload, node=None):
-        self.events.append((kind, self.state.guard) + tuple(payload) + (getattr(node, 'lineno', 0),))
+        self.events.append((kind, self._guard_out(self.state.guard)) + tuple(payload) + (getattr(node, 'lineno', 0),))
+
+    def _guard_out(self, guard):
+        """conditions that come from `assert` statements are marked inside the walker; outside they appear as plain conjuncts (default) or are
+        left out (drop_asserted: an assert states what its author takes to hold, it is not a branch of the decision)"""
+        if not any(g[0] == 'assume' for g in guard):
+            return guard
+        if getattr(self, 'drop_asserted', False):
+            return tuple(g for g in guard if g[0] != 'assume')
+        return tuple(g[1] if g[0] == 'assume' else g for g in guard)
 
     # ---------------------------------------------------------------- run
     def run(self):
@@ -216,7 +225,7 @@ class SymExec:
             if tv is False:
                 st.dead = True
             elif tv is None:
-                st.guard = st.guard + (t,)
+                st.guard = st.guard + (('assume', t),)
         elif isinstance(s, ast.Pass):
             return
         elif isinstance(s, ast.Global):
@@ -465,6 +474,7 @@ class SymExec:
         if any(p not in bind for p in params):
             return None
         sub = SymExec(callee, bind=bind, inline=self.inline, depth=self.depth + 1, consts=self.consts, max_depth=self.max_depth, inline_methods=self.inline_methods)
+        sub.drop_asserted = getattr(self, 'drop_asserted', False)
         try:
             sub.run()
         except Unsupported:
@@ -475,7 +485,7 @@ class SymExec:
         for ev in sub.events:
             if ev[0] == 'return':
                 continue
-            self.events.append((ev[0], self.state.guard + ev[1]) + ev[2:])
+            self.events.append((ev[0], self._guard_out(self.state.guard) + ev[1]) + ev[2:])
         if not rets:
             return NONE
         # value = first matching return in order
